@@ -5,6 +5,7 @@ import (
 	"errors"
 	"fmt"
 	"math/rand"
+	"slices"
 	"strings"
 	"time"
 
@@ -510,6 +511,18 @@ func (d *dealer) syncRegister(callee *wamp.Session, msg *wamp.Register, match, i
 			d.log.Println("REGISTER for already registered procedure",
 				msg.Procedure, "with conflicting invocation policy (has",
 				reg.policy, "and requested", invokePolicy)
+			d.trySend(callee, &wamp.Error{
+				Type:    msg.MessageType(),
+				Request: msg.Request,
+				Details: wamp.Dict{},
+				Error:   wamp.ErrProcedureAlreadyExists,
+			})
+			return metaPubs
+		}
+
+		// A session can be a callee of a registration only once. Adding it a
+		// second time would leave a stale entry behind when the session leaves.
+		if slices.Contains(reg.callees, callee) {
 			d.trySend(callee, &wamp.Error{
 				Type:    msg.MessageType(),
 				Request: msg.Request,
